@@ -82,6 +82,7 @@ type workReq struct {
 	Getter   int
 	Pres     []presT // per getter call; calls beyond the list are synchronous slices
 	TypedNil bool    // empty results that are not the untyped nil: typed nil slice instead of empty slice
+	Store    int     // 1: the getter answers with windows store[lo:hi] of its own sorted []any storage (spare capacity into live data), built from Edges; 2: the same, on the storage the previous request left behind
 	Query    string
 	TCErr    bool // ResolveTotalCount fails
 	TCAsync  bool // ResolveTotalCount answers through apifu.Go
@@ -91,13 +92,14 @@ type workReq struct {
 }
 
 type workResp struct {
-	Status  int
-	Body    string
-	Triples [][3]string // min, max (nanoseconds since the epoch, decimal), limit
-	Returns [][]edge    // what the getter answered to each call, in the order it returned the edges
-	Raised  []int       // per call: errNone / errReal / errTypedNil
-	TCCalls int         // calls of ResolveTotalCount
-	Cost    [3]int      // the connection field's Cost: Resolver, Multiplier; the Multiplier of its edges field
+	Status       int
+	Body         string
+	Triples      [][3]string // min, max (nanoseconds since the epoch, decimal), limit
+	Returns      [][]edge    // what the getter answered to each call, in the order it returned the edges
+	Raised       []int       // per call: errNone / errReal / errTypedNil
+	TCCalls      int         // calls of ResolveTotalCount
+	Cost         [3]int      // the connection field's Cost: Resolver, Multiplier; the Multiplier of its edges field
+	StoreChanged bool        // store mode: the application's storage differs from what the application put there
 }
 
 // zbig writes an integer of any size.  (internal/sexp prints values below 2^61 in decimal, but the
@@ -126,13 +128,15 @@ func nanosOf(t time.Time) *big.Int {
 // ---------------------------------------------------------------------------------------------
 
 type workerState struct {
-	req     *workReq
-	calls   int
-	triples [][3]string
-	returns [][]edge
-	raised  []int
-	tcCalls int
-	def     *graphql.FieldDefinition
+	req      *workReq
+	calls    int
+	triples  [][3]string
+	returns  [][]edge
+	raised   []int
+	tcCalls  int
+	def      *graphql.FieldDefinition
+	store    []any  // store mode: the application's sorted storage
+	pristine []edge // ... and what the application put there
 }
 
 func newAPI(st *workerState) *apifu.API {
@@ -144,13 +148,39 @@ func newAPI(st *workerState) *apifu.API {
 			st.calls++
 			st.triples = append(st.triples, [3]string{nanosOf(minTime).String(), nanosOf(maxTime).String(), fmt.Sprint(limit)})
 			var ret []edge
-			for _, e := range st.req.Edges {
-				t := time.Unix(0, e.Nano)
-				if !t.Before(minTime) && !t.After(maxTime) {
-					ret = append(ret, e)
+			var window []any // store mode: the answer is this sub-slice of the application's storage
+			if st.req.Store != 0 {
+				lo, hi := len(st.store), 0
+				for k, x := range st.store {
+					t := time.Unix(0, x.(edge).Nano)
+					if !t.Before(minTime) && !t.After(maxTime) {
+						if k < lo {
+							lo = k
+						}
+						hi = k + 1
+					}
 				}
+				if lo > hi {
+					lo, hi = 0, 0
+				}
+				if limit > 0 && hi-lo > limit {
+					hi = lo + limit
+				} else if limit < 0 && hi-lo > -limit {
+					lo = hi + limit
+				}
+				window = st.store[lo:hi]
+				for _, x := range window {
+					ret = append(ret, x.(edge))
+				}
+			} else {
+				for _, e := range st.req.Edges {
+					t := time.Unix(0, e.Nano)
+					if !t.Before(minTime) && !t.After(maxTime) {
+						ret = append(ret, e)
+					}
+				}
+				sort.Slice(ret, func(a, b int) bool { return edgeLess(ret[a], ret[b]) })
 			}
-			sort.Slice(ret, func(a, b int) bool { return edgeLess(ret[a], ret[b]) })
 			if st.req.Getter != getterGenerous {
 				if limit > 0 && len(ret) > limit {
 					ret = ret[:limit]
@@ -184,6 +214,9 @@ func newAPI(st *workerState) *apifu.API {
 			st.returns = append(st.returns, append([]edge{}, ret...))
 			st.raised = append(st.raised, p.Err)
 			var res interface{} = ret
+			if window != nil && len(ret) > 0 && len(ret) == len(window) {
+				res = window
+			}
 			if len(ret) == 0 {
 				switch {
 				case p.Nil:
@@ -275,6 +308,21 @@ func fieldCost(def *graphql.FieldDefinition, first, last *int) [3]int {
 	return [3]int{fc.Resolver, fc.Multiplier, em}
 }
 
+func storeChanged(st *workerState) bool {
+	if st.store == nil {
+		return false
+	}
+	if len(st.store) != len(st.pristine) {
+		return true
+	}
+	for k, x := range st.store {
+		if e, ok := x.(edge); !ok || e != st.pristine[k] {
+			return true
+		}
+	}
+	return false
+}
+
 func workerMain() {
 	st := &workerState{}
 	api := newAPI(st)
@@ -289,13 +337,23 @@ func workerMain() {
 				os.Exit(3)
 			}
 			st.req, st.calls, st.triples, st.returns, st.raised, st.tcCalls = &req, 0, nil, nil, nil, 0
+			if req.Store == 1 || (req.Store == 2 && st.store == nil) {
+				st.pristine = append([]edge{}, req.Edges...)
+				sort.Slice(st.pristine, func(a, b int) bool { return edgeLess(st.pristine[a], st.pristine[b]) })
+				st.store = make([]any, len(st.pristine))
+				for k, e := range st.pristine {
+					st.store[k] = e
+				}
+			} else if req.Store == 0 {
+				st.store, st.pristine = nil, nil
+			}
 			body, _ := json.Marshal(map[string]interface{}{"query": req.Query})
 			hr := httptest.NewRequest("POST", "/graphql", bytes.NewReader(body))
 			hr.Header.Set("Content-Type", "application/json")
 			w := httptest.NewRecorder()
 			api.ServeGraphQL(w, hr)
 			resp, _ := json.Marshal(workResp{Status: w.Code, Body: w.Body.String(), Triples: st.triples, Returns: st.returns, Raised: st.raised, TCCalls: st.tcCalls,
-				Cost: fieldCost(st.def, req.First, req.Last)})
+				Cost: fieldCost(st.def, req.First, req.Last), StoreChanged: storeChanged(st)})
 			out.Write(resp)
 			out.WriteByte('\n')
 			out.Flush()
@@ -641,6 +699,7 @@ type env struct {
 	tcErr    bool
 	tcAsync  bool
 	zone     int
+	store    int // 0 / 1 (fresh shared storage) / 2 (the storage the previous step left behind)
 }
 
 func presSexp(ps []presT) sexp.Node {
@@ -654,7 +713,14 @@ func presSexp(ps []presT) sexp.Node {
 func (e *env) step(a argSpec, ps []presT) (obsT, sexp.Node) {
 	skipped := e.run.hangs >= maxHangs
 	resp, crashed, hung := e.run.do(&workReq{Edges: e.edges, Getter: e.getter, Pres: ps, TypedNil: e.typedNil, Query: a.query(),
-		TCErr: e.tcErr, TCAsync: e.tcAsync, Zone: e.zone, First: a.First, Last: a.Last})
+		TCErr: e.tcErr, TCAsync: e.tcAsync, Zone: e.zone, First: a.First, Last: a.Last, Store: e.store})
+	storeObs := 0
+	if e.store != 0 {
+		storeObs = 1
+		if resp.StoreChanged {
+			storeObs = 2
+		}
+	}
 	o, on := observe(resp, crashed, hung)
 	if skipped {
 		on = sexp.T("skipped-after-hangs")
@@ -675,7 +741,7 @@ func (e *env) step(a argSpec, ps []presT) (obsT, sexp.Node) {
 		tc = sexp.T("err")
 	}
 	return o, sexp.T("step", a.sexp(), sexp.T("info", sexp.Bool(a.Info)), sexp.T("total", sexp.Bool(a.Total)), sexp.T("tc", tc),
-		sexp.T("tccalls", sexp.Int(resp.TCCalls)), sexp.T("cost", sexp.Int(resp.Cost[0]), sexp.Int(resp.Cost[1]), sexp.Int(resp.Cost[2])),
+		sexp.T("tccalls", sexp.Int(resp.TCCalls)), sexp.T("store", sexp.Int(storeObs)), sexp.T("cost", sexp.Int(resp.Cost[0]), sexp.Int(resp.Cost[1]), sexp.Int(resp.Cost[2])),
 		sexp.T("pres", presSexp(ps)),
 		sexp.T("obs", on), sexp.T("triples", sexp.L(ts...)))
 }
@@ -1171,6 +1237,9 @@ func main() {
 			h.Case(func(r *rng.R) sexp.Node {
 				d := randomDataset(r)
 				e := randomEnv(r, run, d)
+				if r.Chance(1, 6) {
+					e.getter, e.store = getterExact, 1
+				}
 				a := randomArgs(r, d)
 				a.Total, a.TotalFirst = r.Chance(1, 3), r.Bool()
 				ps := randomPres(r)
@@ -1388,6 +1457,33 @@ func main() {
 				return sexp.T("far", zbig(big.NewInt(t.Unix())), sexp.Int(t.Nanosecond()), z64(c.Nano),
 					zbig(big.NewInt(back.Unix())), sexp.Int(back.Nanosecond()))
 			})
+		}
+
+		// K. a getter that answers with windows store[lo:hi] of its own sorted []any storage (spare
+		// capacity into live data): requests with two or three non-empty range queries, then a
+		// follow-up request on the same storage; the storage must be unchanged after every request
+		for _, d := range gridSets[:2] {
+			for _, after := range []curArg{nil, curOf(100, "a"), curOf(100, "b"), curOf(200, "a")} {
+				for _, before := range []curArg{nil, curOf(200, "b"), curOf(300, "a"), curOf(200, "a")} {
+					for _, x := range []fl{{intp(10), nil}, {nil, intp(10)}, {intp(1), nil}, {nil, intp(2)}} {
+						d, after, before, x := d, after, before, x
+						h.Case(func(r *rng.R) sexp.Node {
+							e := &env{run: run, edges: shuffled(r, d), getter: getterExact, typedNil: r.Bool(), zone: rng.Pick(r, zones), store: 1}
+							a := argSpec{First: x.first, Last: x.last, After: after, Before: before, Info: true}
+							_, s1 := e.step(a, randomPres(r))
+							e.store = 2
+							b := argSpec{Info: true}
+							if r.Bool() {
+								b.First = intp(10)
+							} else {
+								b.Last = intp(10)
+							}
+							_, s2 := e.step(b, randomPres(r))
+							return e.caseNode(sexp.T("single"), []sexp.Node{s1, s2})
+						})
+					}
+				}
+			}
 		}
 
 		// F. hostile stream: both / neither / negative counts, undecodable cursor strings
